@@ -21,6 +21,20 @@ NOT_APPLICABLE = {
            "return) is neither sufficient nor a meaningful necessary condition of the switch actually happening.",
 }
 
+# Rule modules that exist under engine/rules but are deliberately NOT registered as checks: their
+# verdicts on the current tree have not been triaged site by site into "genuine defect" versus
+# "imprecision of the rule", and an untriaged check is neither allowed to raise an alarm nor to be
+# silenced wholesale.  They stay runnable by hand (./check C08) for development.
+UNCLAIMED = {
+    "C08": "not claimed: engine/rules/c08.py exists, but its PANIC clause (totality of the SNAP ingress filter's call graph) "
+           "still leaves 39 potential panic sites on the current tree that are neither auto-discharged nor reviewed; until each "
+           "is triaged the check is not registered (DESIGN.md section 12)",
+    "C14": "not claimed: engine/rules/c14.py exists, but 6 reports on the current tree (echo-reply provenance through "
+           "to_vec/identifier accessors, SCMP-error-to-error guards in three senders) are not yet separated into rule imprecision "
+           "and genuine defects; not registered until triaged (DESIGN.md section 12)",
+}
+NOT_BUILT = "not claimed: the static rule planned in DESIGN.md section 5 has not been built; no check is registered rather than a weaker one under this label"
+
 ALL = ["C%02d" % i for i in range(1, 21)]
 
 
@@ -31,10 +45,13 @@ def main():
         if pid in NOT_APPLICABLE:
             na.append({"property_id": pid, "reason": NOT_APPLICABLE[pid]})
             continue
+        if pid in UNCLAIMED:
+            na.append({"property_id": pid, "reason": UNCLAIMED[pid]})
+            continue
         try:
             mod = importlib.import_module(pid.lower())
         except ModuleNotFoundError:
-            na.append({"property_id": pid, "reason": "rule module not built yet (static check planned in DESIGN.md section 5)"})
+            na.append({"property_id": pid, "reason": NOT_BUILT})
             continue
         checks.append({
             "property_id": pid,
@@ -48,7 +65,7 @@ def main():
                 "text": mod.LEVEL_TEXT if hasattr(mod, "LEVEL_TEXT") else mod.EXPLANATION,
                 "design_ref": "DESIGN.md section 5 (%s)" % pid,
             },
-            "level_note": "Trusted: rustc nightly front end/MIR construction and const evaluation; reviewed tables under engine/tables; "
+            "level_note": "Trusted: rustc nightly front end/MIR construction and const evaluation; reviewed tables under engine/tables (entries marked `reviewed` are relied on unchecked and listed in the evidence; entries with `guard` are re-verified on every run); "
                           "std/tinyvec/third-party contracts as listed in the evidence assumptions. Decides the named structural clauses on "
                           "all control-flow paths of the type-checked program, not the runtime behaviour as a whole. "
                           + " Not decided: " + "; ".join(getattr(mod, "RESIDUAL", [])),
@@ -73,7 +90,9 @@ def main():
         "checks": checks,
         "not_applicable": na,
         "notes": "Family: static analysis only. Every check rebuilds facts from /repo's working tree (cache keyed by content hash). "
-                 "known_findings.json lists genuine defects recorded/fixed; see DESIGN.md.",
+                 "known_findings.json lists genuine defects recorded/fixed; see DESIGN.md section 12 (status as built). "
+                 "Unguarded repairs in /repo: 8998145 (fix: try_reverse validates before writing, C12), 6559404 (fix: validate_nbf, C10); "
+                 "no hook/instrumentation commits.",
     }
     with open(os.path.join(VERIF, "MANIFEST.json"), "w") as f:
         json.dump(man, f, indent=1)
